@@ -50,6 +50,10 @@ JudgeClock(o) ==
          \* (0 realtime, 1 monotonic, 2 CPU time of the process, 3 CPU time of the calling thread)
          /\ LeT(o.before, o.t) /\ LeT(o.t, o.after)
          /\ (o.id = 1 => LeT(o.prev, o.t))
+\* readings taken directly one after the other, whatever precisions were asked for: all succeed, and the monotonic
+\* clock (1) does not step back
+JudgeClockSeq(o) == /\ o.errno = 0
+                    /\ (o.id = 1 => \A i \in 1..(Len(o.ts) - 1) : LeT(o.ts[i], o.ts[i + 1]))
 JudgeRandom(o) == /\ o.errno = 0 /\ o.outside = 0
                   /\ (o.len >= 16 => (o.run1 < 16 \/ o.run2 < 16))
                   /\ (o.len > 0 /\ o.len < 16 => TRUE)
@@ -72,6 +76,7 @@ Judge == (k >= 1) =>
     LET o == In[k]
         ok == CASE o.kind = "layout" -> LayoutOK(o.vec, o.buf)
                 [] o.kind = "clock" -> JudgeClock(o)
+                [] o.kind = "clockseq" -> JudgeClockSeq(o)
                 [] o.kind = "random" -> JudgeRandom(o)
                 [] o.kind = "exit" -> JudgeExit(o)
                 [] o.kind = "spawn" -> JudgeSpawn(o)
